@@ -76,10 +76,17 @@ func zxC09OffsetLimit() {
 		flat = Limit(flat, n)
 	}
 	var out []int64
-	_, err := flat.Iterate(context.Background(), FieldsIgnored, func(row *FlatRow) (bool, error) {
-		out = append(out, row.TS)
-		return true, nil
-	})
+	// a plan may be iterated more than once (sub-query plans are): every run slices the same way
+	runs := vrtShape("runs", 2) + 1
+	var err error
+	for run := 0; run < runs; run++ {
+		out = nil
+		src.delivered = 0
+		_, err = flat.Iterate(context.Background(), FieldsIgnored, func(row *FlatRow) (bool, error) {
+			out = append(out, row.TS)
+			return true, nil
+		})
+	}
 	vrtAssert(err == nil, "no error")
 	lo, hi := m, k
 	if lo > k {
